@@ -862,7 +862,7 @@ def gen(ctx):
     # random schedules: 1..4 sources of any kind, times from a small grid (ties are likely),
     # wake-up latency injected into the virtual loop, optional slow initialisation
     rng = ctx.rng('random')
-    nrand = 160 if ctx.tier == 'quick' else 400000
+    nrand = 500 if ctx.tier == 'quick' else 400000
     inner = ['Z', 'ZC', 'EC', 'HC', 'HN', 'MC', 'FK']
     for i in range(nrand):
         mode = rng.choice(['R', 'R', 'U', 'U', 'N'])
